@@ -45,6 +45,8 @@ type Step struct {
 	F       []float32     `json:"f,omitempty"`
 	NoRID   bool          `json:"norid,omitempty"`
 	Off     *Offence      `json:"off,omitempty"`
+	Raw     []byte        `json:"raw,omitempty"`
+	RID     uint32        `json:"rid,omitempty"` // twin executions re-issue joins under the request id of the first execution
 }
 
 type QuadSpec struct {
@@ -189,6 +191,16 @@ func (m *Model) resolveParticipants(c *MConn, rs []Ref) []uint32 {
 	return out
 }
 
+// resolveComp: references to an existing component resolve both ids at once.
+func (m *Model) resolveComp(c *MConn, typ, ent Ref) (uint32, uint32) {
+	if typ.K == "comp" && c.Session != nil && len(c.Session.Components) > 0 {
+		keys := sortedCKeys(c.Session.Components)
+		k := keys[typ.I%len(keys)]
+		return k.Type, k.Entity
+	}
+	return m.resolveType(c, typ), m.resolveEntity(c, ent)
+}
+
 func sortedSessionIDs(m map[string]*MSession) []string {
 	out := make([]string, 0, len(m))
 	for k := range m {
@@ -250,6 +262,9 @@ func notJoined(rid uint32, kind string) *Outcome {
 func (m *Model) Build(st *Step, ci int, rid uint32) *Pending {
 	c := m.conn(ci)
 	ts := timestamppb.Now()
+	if st.RID != 0 {
+		rid = st.RID
+	}
 	p := &Pending{Step: st, Conn: ci, RID: rid, TS: ts}
 	if st.NoRID {
 		rid = 0
@@ -273,9 +288,12 @@ func (m *Model) Build(st *Step, ci int, rid uint32) *Pending {
 		case "new", "":
 			sid = ""
 		default:
-			if g, ok := m.SymSess[st.Sess]; ok {
-				if _, live := m.Live[g]; live {
-					sid = g
+			// a symbolic session is bound to a session identity (uuid), not to a recyclable id
+			if u, ok := m.SymSess[st.Sess]; ok {
+				for _, id := range sortedSessionIDs(m.Live) {
+					if m.Live[id].UUID == u {
+						sid = id
+					}
 				}
 			}
 		}
@@ -502,7 +520,7 @@ func (m *Model) Build(st *Step, ci int, rid uint32) *Pending {
 		}
 
 	case "comp_add":
-		typ, ent := m.resolveType(c, st.Typ), m.resolveEntity(c, st.Ent)
+		typ, ent := m.resolveComp(c, st.Typ, st.Ent)
 		p.Req = &hagallpb.EntityComponentAddRequest{Type: hagallpb.MsgType_MSG_TYPE_ENTITY_COMPONENT_ADD_REQUEST, Timestamp: ts, RequestId: rid, EntityComponentTypeId: typ, EntityId: ent, Data: []byte(st.Data)}
 		p.Finish = func(m *Model, got []*RecvMsg) *Outcome {
 			c := m.conn(ci)
@@ -532,7 +550,7 @@ func (m *Model) Build(st *Step, ci int, rid uint32) *Pending {
 		}
 
 	case "comp_delete":
-		typ, ent := m.resolveType(c, st.Typ), m.resolveEntity(c, st.Ent)
+		typ, ent := m.resolveComp(c, st.Typ, st.Ent)
 		p.Req = &hagallpb.EntityComponentDeleteRequest{Type: hagallpb.MsgType_MSG_TYPE_ENTITY_COMPONENT_DELETE_REQUEST, Timestamp: ts, RequestId: rid, EntityComponentTypeId: typ, EntityId: ent}
 		p.Finish = func(m *Model, got []*RecvMsg) *Outcome {
 			c := m.conn(ci)
@@ -560,7 +578,7 @@ func (m *Model) Build(st *Step, ci int, rid uint32) *Pending {
 		}
 
 	case "comp_update":
-		typ, ent := m.resolveType(c, st.Typ), m.resolveEntity(c, st.Ent)
+		typ, ent := m.resolveComp(c, st.Typ, st.Ent)
 		p.Req = &hagallpb.EntityComponentUpdate{Type: hagallpb.MsgType_MSG_TYPE_ENTITY_COMPONENT_UPDATE, Timestamp: ts, EntityComponentTypeId: typ, EntityId: ent, Data: []byte(st.Data)}
 		p.RID = 0
 		p.Finish = func(m *Model, got []*RecvMsg) *Outcome {
@@ -956,7 +974,7 @@ func (m *Model) finishJoin(st *Step, ci int, rid uint32, ts *timestamppb.Timesta
 		m.AllUUIDs[jr.SessionUuid] = true
 		m.Live[jr.SessionId] = target
 		if st.Sess != "" && st.Sess != "new" {
-			m.SymSess[st.Sess] = jr.SessionId
+			m.SymSess[st.Sess] = jr.SessionUuid
 		}
 	}
 	pid := jr.ParticipantId
